@@ -10,6 +10,7 @@ import RTV.Drv.Choice
 import RTV.Drv.Cal
 import RTV.Drv.DtRes
 import RTV.Drv.Span
+import RTV.Drv.UnitExtract
 /-! Model driver: one operation per input line (tab-separated), one answer line per operation.
 Run compiled (`.lake/build/bin/rtvdriver`) or with `lake env lean --run Driver.lean`. -/
 open RTV.Drv
@@ -29,6 +30,7 @@ def dispatch (line : String) : String :=
       <|> dispatchDtRes op args
       <|> dispatchNum op args
       <|> dispatchSpan op args
+      <|> dispatchUnitExtract op args
       -- <|> dispatchOther op args   (one alternative per layer)
       ).getD "bad-op"
   | _ => "bad-op"
